@@ -280,3 +280,8 @@ TEXT['C19']['text'] += (' In the frame layer a real callTracer / flatCallTracer 
                         'call-tracer machine run on the same callbacks (this is how D19 was found).')
 TEXT['C08']['text'] += (' S node also reads the leftover gas of every attempt made by an instruction - accepted or refused up front - off the ISSUING '
                         'frame\'s own gas around the instruction and requires the node to record exactly that.')
+TEXT['C16']['text'] += (' Search support on every run: S det replays every tracer history six times and every fifth call-tree program (calls of all '
+                        'kinds, creates, mock Aspects, real call tracer attached) on a fresh EVM and state, comparing all emitted lines; S det-interleaved '
+                        'runs one subject execution between every sequence of one or two unrelated executions that share its chain configuration value, '
+                        'height and time; the global-write table (regenerated, decide +kernel) lists every write to a package-level variable, including '
+                        'state-changing methods of sync/atomic types.')
